@@ -12,8 +12,10 @@ Theorems (all for EVERY byte string / header value, `flex` = kmsg's flexibility 
 * `skipTagged_total`       : `SkipTaggedFields` (also used by `SkipResponseHeader`) never panics
 * `parseHeader_body_suffix`: the body handed on is a suffix of the input
 * `parseHeaderOld_panics`  : the pre-fix code panics on a tagged-field size of 2^63 (witness)
-* `parseHeader_encode`     : header written by a standard client (empty tag section, as kmsg's
-                             RequestFormatter writes it) parses back to the same fields and body
+* `parseHeader_encode_tags`: header + ANY well-formed tagged-field section + any body parses back to the same fields
+                             and exactly that body (`parseHeader_encode` = the empty section kmsg's RequestFormatter
+                             writes); `parseHeader_consumes_exactly_header`, `uvarint_roundtrip`, `skipTagged_exact`,
+                             `skipTagged_within_buffer`
 * `readFrame_total`, `readFrame_exact`, `readFrame_writeFrame`
 The body bytes → kmsg struct step is kmsg's codec (a parameter, see DESIGN section 3); the check
 exercises it for every advertised (key, version).
@@ -249,6 +251,154 @@ theorem uvarint_zero_at (r : Reader) (pre rest : Bytes) (hb : r.buf = pre ++ (0 
   rw [goSlice_tail]
   simp [GoResult.bind, goUvarint, uvarintAux]
 
+theorem ofNat_toNat_lt (n : Nat) (h : n < 256) : (UInt8.ofNat n).toNat = n := by
+  simp [UInt8.toNat_ofNat']; omega
+
+theorem putUvarintAux_length_pos (f v : Nat) : 0 < (putUvarintAux f v).length := by
+  cases f with
+  | zero => simp [putUvarintAux]
+  | succ f => unfold putUvarintAux; split <;> simp
+
+/-- `binary.Uvarint ∘ binary.PutUvarint`: the decoder reads back the value and consumes exactly the encoding -/
+theorem uvarintAux_put (f : Nat) : ∀ (v i x s : Nat) (rest : Bytes), i + f = 9 → v < 2 ^ (7 * f + 1) →
+    uvarintAux (putUvarintAux f v ++ rest) i x s = (x + v * 2 ^ s, (i : Int) + (putUvarintAux f v).length) := by
+  induction f with
+  | zero =>
+    intro v i x s rest hi hv
+    have hi9 : i = 9 := by omega
+    subst hi9
+    have hv2 : v < 2 := by simpa using hv
+    have hb : (UInt8.ofNat (v % 128)).toNat = v := by rw [ofNat_toNat_lt _ (by omega)]; omega
+    simp only [putUvarintAux, List.cons_append, List.nil_append, uvarintAux, hb]
+    have h1 : ¬ ((9 : Nat) = 10) := by omega
+    have h2 : v < 128 := by omega
+    have h3 : ¬ ((9 : Nat) = 9 ∧ v > 1) := by omega
+    simp only [h1, h2, if_true, if_false]
+    simp
+    omega
+  | succ f ih =>
+    intro v i x s rest hi hv
+    unfold putUvarintAux
+    by_cases hlt : v < 128
+    · have hb : (UInt8.ofNat v).toNat = v := ofNat_toNat_lt _ (by omega)
+      simp only [hlt, if_true, List.cons_append, List.nil_append, uvarintAux, hb]
+      have h1 : ¬ (i = 10) := by omega
+      have h3 : ¬ (i = 9 ∧ v > 1) := by omega
+      simp only [h1, h3, if_false]
+      simp
+    · have hb : (UInt8.ofNat (v % 128 + 128)).toNat = v % 128 + 128 := ofNat_toNat_lt _ (by omega)
+      simp only [hlt, if_false, List.cons_append, uvarintAux, hb]
+      have h1 : ¬ (i = 10) := by omega
+      have h2 : ¬ (v % 128 + 128 < 128) := by omega
+      simp only [h1, h2, if_false]
+      have hv' : v / 128 < 2 ^ (7 * f + 1) := by
+        have : 2 ^ (7 * (f + 1) + 1) = 2 ^ (7 * f + 1) * 128 := by
+          rw [show 7 * (f + 1) + 1 = (7 * f + 1) + 7 by omega, Nat.pow_add]
+        rw [this] at hv
+        exact Nat.div_lt_of_lt_mul (by rw [Nat.mul_comm]; exact hv)
+      rw [ih (v / 128) (i + 1) _ (s + 7) rest (by omega) hv']
+      have hm : (v % 128 + 128) % 128 = v % 128 := by omega
+      have hval : x + (v % 128 + 128) % 128 * 2 ^ s + v / 128 * 2 ^ (s + 7) = x + v * 2 ^ s := by
+        rw [hm, Nat.pow_add]
+        have hd := Nat.div_add_mod v 128
+        generalize 2 ^ s = p at *
+        generalize v / 128 = q at *
+        generalize v % 128 = m at *
+        subst hd
+        rw [Nat.add_mul, Nat.add_assoc]
+        congr 1
+        rw [Nat.add_comm]; congr 1
+        show q * (p * 128) = 128 * q * p
+        ac_rfl
+      rw [hval]
+      simp only [List.length_cons]
+      congr 1
+      push_cast
+      omega
+
+
+theorem uvarint_at (r : Reader) (pre rest : Bytes) (v : Nat) (hv : v < 2 ^ 64)
+    (hb : r.buf = pre ++ (putUvarint v ++ rest)) (hp : r.pos = pre.length) :
+    uvarint r = .ok (v, { buf := r.buf, pos := r.pos + (putUvarint v).length }) := by
+  obtain ⟨buf, pos⟩ := r
+  simp only at hb hp
+  subst hb hp
+  unfold uvarint
+  show (goSlice (pre ++ (putUvarint v ++ rest)) pre.length ((pre ++ (putUvarint v ++ rest)).length : Nat)).bind _ = _
+  rw [goSlice_tail]
+  have h := uvarintAux_put 9 v 0 0 0 rest rfl hv
+  have hpos := putUvarintAux_length_pos 9 v
+  simp only [GoResult.bind, goUvarint, putUvarint, h]
+  have hn : ¬ (((0 : Nat) : Int) + ((putUvarintAux 9 v).length : Int) ≤ 0) := by omega
+  simp only [hn, if_false]
+  simp
+
+theorem toInt64_small (n : Nat) (h : n < 2 ^ 63) : toInt64 n = n := by
+  unfold toInt64
+  have : n % 2 ^ 64 = n := Nat.mod_eq_of_lt (by omega)
+  rw [this]; simp [h]
+
+theorem skipLoop_enc (tags : List (Nat × Bytes)) : ∀ (r : Reader) (pre rest : Bytes),
+    (∀ t ∈ tags, t.1 < 2 ^ 64 ∧ t.2.length < 2 ^ 63) →
+    r.buf = pre ++ (encodeTagFields tags ++ rest) → r.pos = pre.length →
+    skipLoopWith read tags.length r = .ok { buf := r.buf, pos := r.pos + (encodeTagFields tags).length } := by
+  induction tags with
+  | nil =>
+    intro r pre rest _ _ _
+    simp [skipLoopWith, encodeTagFields]
+  | cons t ts ih =>
+    intro r pre rest hw hb hp
+    obtain ⟨ht1, ht2⟩ := hw t (by simp)
+    have hw' : ∀ u ∈ ts, u.1 < 2 ^ 64 ∧ u.2.length < 2 ^ 63 := fun u hu => hw u (by simp [hu])
+    have henc : encodeTagFields (t :: ts) = putUvarint t.1 ++ (putUvarint t.2.length ++ (t.2 ++ encodeTagFields ts)) := by
+      simp [encodeTagFields, List.append_assoc]
+    rw [henc] at hb ⊢
+    replace hb : r.buf = pre ++ (putUvarint t.1 ++ (putUvarint t.2.length ++ (t.2 ++ (encodeTagFields ts ++ rest)))) := by
+      rw [hb]; simp only [List.append_assoc]
+    simp only [List.length_cons, skipLoopWith]
+    rw [uvarint_at r pre _ t.1 ht1 hb hp]
+    simp only [GoResult.bind]
+    rw [uvarint_at { buf := r.buf, pos := r.pos + (putUvarint t.1).length } (pre ++ putUvarint t.1) (t.2 ++ encodeTagFields ts ++ rest) t.2.length (by omega)
+      (by show r.buf = _; rw [hb]; simp only [List.append_assoc]) (by show r.pos + _ = _; rw [hp]; simp)]
+    simp only
+    by_cases hz : t.2.length = 0
+    · have hnil : t.2 = [] := List.eq_nil_of_length_eq_zero hz
+      simp only [hz, if_true]
+      rw [ih { buf := r.buf, pos := r.pos + (putUvarint t.1).length + (putUvarint 0).length } (pre ++ putUvarint t.1 ++ putUvarint 0) rest hw'
+        (by show r.buf = _; rw [hb, hz, hnil]; simp only [List.append_assoc, List.nil_append])
+        (by show r.pos + _ + _ = _; rw [hp]; simp; omega)]
+      simp only [hnil, List.length_append, List.nil_append]
+      congr 2
+      push_cast; omega
+    · simp only [hz, if_false]
+      rw [toInt64_small _ ht2]
+      rw [read_at { buf := r.buf, pos := r.pos + (putUvarint t.1).length + (putUvarint t.2.length).length }
+        (pre ++ putUvarint t.1 ++ putUvarint t.2.length) t.2 (encodeTagFields ts ++ rest)
+        (by show r.buf = _; rw [hb]; simp only [List.append_assoc])
+        (by show r.pos + _ + _ = _; rw [hp]; simp; omega)]
+      simp only
+      rw [ih _ (pre ++ putUvarint t.1 ++ putUvarint t.2.length ++ t.2) rest hw'
+        (by show r.buf = _; rw [hb]; simp only [List.append_assoc])
+        (by show r.pos + _ + _ + _ = _; rw [hp]; simp; omega)]
+      simp only [List.length_append]
+      congr 2
+      push_cast; omega
+
+
+/-- `SkipTaggedFields` on a well-formed section consumes exactly the section. -/
+theorem skipTagged_at (r : Reader) (pre rest : Bytes) (tags : List (Nat × Bytes)) (hw : TagsWf tags)
+    (hb : r.buf = pre ++ (encodeTags tags ++ rest)) (hp : r.pos = pre.length) :
+    skipTaggedWith read r = .ok { buf := r.buf, pos := r.pos + (encodeTags tags).length } := by
+  unfold skipTaggedWith
+  unfold encodeTags at hb ⊢
+  rw [uvarint_at r pre (encodeTagFields tags ++ rest) tags.length hw.1 (by rw [hb]; simp only [List.append_assoc]) hp]
+  simp only [GoResult.bind]
+  rw [skipLoop_enc tags _ (pre ++ putUvarint tags.length) rest hw.2
+    (by show r.buf = _; rw [hb]; simp only [List.append_assoc]) (by show r.pos + _ = _; rw [hp]; simp)]
+  simp only [List.length_append]
+  congr 2
+  push_cast; omega
+
 theorem int16_at (r : Reader) (pre rest : Bytes) (k : Int) (hk : -32768 ≤ k ∧ k < 32768)
     (hb : r.buf = pre ++ (putU16 (twos 16 k) ++ rest)) (hp : r.pos = pre.length) :
     int16With read r = .ok (k, { buf := r.buf, pos := r.pos + 2 }) := by
@@ -298,15 +448,16 @@ theorem nullableString_at (r : Reader) (pre rest : Bytes) (s : Option Bytes)
     show r.pos + 2 + (x.length : Int) = r.pos + ((2 + x.length : Nat) : Int)
     omega
 
-/-- kmsg's `RequestFormatter` writes an EMPTY tag section in flexible headers: one 0 byte. -/
-theorem parseHeader_encode_aux (flex : Int → Int → Bool) (h : Header) (hw : h.wf) (body : Bytes) :
-    parseHeader flex (encodeHeader h (flex h.key h.ver) [] ++ body) = .ok (h, body) := by
+/-- Round trip for ANY well-formed tagged-field section (kmsg's `RequestFormatter` writes the empty one: a single 0 byte). -/
+theorem parseHeader_encode_aux (flex : Int → Int → Bool) (h : Header) (hw : h.wf) (tags : List (Nat × Bytes))
+    (htw : TagsWf tags) (body : Bytes) :
+    parseHeader flex (encodeHeader h (flex h.key h.ver) tags ++ body) = .ok (h, body) := by
   obtain ⟨k0, k1, v0, v1, c0, c1, hs⟩ := hw
   obtain ⟨key, ver, corr, cid⟩ := h
   simp only at k0 k1 v0 v1 c0 c1 hs
   unfold parseHeader parseHeaderWith
   simp only [encodeHeader]
-  generalize hT : (if flex key ver = true then encodeTags [] else []) = T
+  generalize hT : (if flex key ver = true then encodeTags tags else []) = T
   generalize hbuf : putU16 (twos 16 key) ++ putU16 (twos 16 ver) ++ putU32 (twos 32 corr) ++ encodeNullableString cid ++ T ++ body = buf
   have hb : buf = putU16 (twos 16 key) ++ (putU16 (twos 16 ver) ++ (putU32 (twos 32 corr) ++ (encodeNullableString cid ++ (T ++ body)))) := by
     rw [← hbuf]; simp only [List.append_assoc]
@@ -327,18 +478,16 @@ theorem parseHeader_encode_aux (flex : Int → Int → Bool) (h : Header) (hw : 
     simp [putU16, putU32]; omega
   by_cases hf : flex key ver = true
   · simp only [hf, if_true] at hT ⊢
-    have hT' : T = [0] := by rw [← hT]; decide
-    subst hT'
-    unfold skipTaggedWith
-    rw [uvarint_zero_at _ _ body (by show buf = _ ++ (0 :: body); rw [hpre]; rfl) hplen]
-    simp only [GoResult.bind, skipLoopWith]
-    have : (0 : Int) + 2 + 2 + 4 + ((encodeNullableString cid).length : Int) + 1
-      = ((putU16 (twos 16 key) ++ putU16 (twos 16 ver) ++ putU32 (twos 32 corr) ++ encodeNullableString cid ++ [0]).length : Nat) := by
-      simp [putU16, putU32]; omega
+    subst hT
+    rw [skipTagged_at _ _ body tags htw hpre hplen]
+    simp only
+    have : (0 : Int) + 2 + 2 + 4 + ((encodeNullableString cid).length : Int) + ((encodeTags tags).length : Int)
+      = ((putU16 (twos 16 key) ++ putU16 (twos 16 ver) ++ putU32 (twos 32 corr) ++ encodeNullableString cid ++ encodeTags tags).length : Nat) := by
+      rw [hplen]; simp only [List.length_append]; push_cast; omega
     rw [this]
-    have hb2 : buf = (putU16 (twos 16 key) ++ putU16 (twos 16 ver) ++ putU32 (twos 32 corr) ++ encodeNullableString cid ++ [0]) ++ body := by
+    have hb2 : buf = (putU16 (twos 16 key) ++ putU16 (twos 16 ver) ++ putU32 (twos 32 corr) ++ encodeNullableString cid ++ encodeTags tags) ++ body := by
       rw [hpre]; simp only [List.append_assoc]
-    have := goSlice_tail (putU16 (twos 16 key) ++ putU16 (twos 16 ver) ++ putU32 (twos 32 corr) ++ encodeNullableString cid ++ [0]) body
+    have := goSlice_tail (putU16 (twos 16 key) ++ putU16 (twos 16 ver) ++ putU32 (twos 32 corr) ++ encodeNullableString cid ++ encodeTags tags) body
     rw [← hb2] at this
     rw [this]
   · rw [if_neg hf] at hT
@@ -456,12 +605,55 @@ theorem parseHeaderOld_panics : ∃ b, parseHeaderOld (fun _ _ => true) b = .pan
 /-- … and the fixed code rejects the same frame with an error. -/
 theorem killerFrame_rejected : parseHeader (fun _ _ => true) killerFrame = .err := by decide
 
-/-- (3) Round trip: a header written by a standard client (kmsg `RequestFormatter`: key, version,
-correlation id, nullable client id, and — for flexible versions — an empty tagged-field section),
-followed by ANY body bytes, parses back to exactly the same header and the same body. -/
+/-- (3a) Round trip, full strength: a request header (key, version, correlation id, nullable client id) followed — for
+flexible versions — by ANY well-formed tagged-field section (uvarint count; per field uvarint tag, uvarint size, that many
+bytes; count/tags < 2^64, sizes < 2^63), followed by ANY body bytes, parses back to exactly the same header and exactly the
+same body: `SkipTaggedFields` consumes the section and nothing else. -/
+theorem parseHeader_encode_tags (flex : Int → Int → Bool) (h : Header) (hw : h.wf) (tags : List (Nat × Bytes))
+    (htw : TagsWf tags) (body : Bytes) :
+    parseHeader flex (encodeHeader h (flex h.key h.ver) tags ++ body) = .ok (h, body) :=
+  parseHeader_encode_aux flex h hw tags htw body
+
+/-- (3b) The instance standard clients send (kmsg `RequestFormatter`: empty tagged-field section = one 0 byte). -/
 theorem parseHeader_encode (flex : Int → Int → Bool) (h : Header) (hw : h.wf) (body : Bytes) :
     parseHeader flex (encodeHeader h (flex h.key h.ver) [] ++ body) = .ok (h, body) :=
-  parseHeader_encode_aux flex h hw body
+  parseHeader_encode_tags flex h hw [] ⟨by decide, by simp⟩ body
+
+/-- (3c) `ParseRequestHeader` never reads beyond the header: the body it returns is the input from exactly the end of the
+encoded header on, and the parsed header does not depend on what follows it. -/
+theorem parseHeader_consumes_exactly_header (flex : Int → Int → Bool) (h : Header) (hw : h.wf) (tags : List (Nat × Bytes))
+    (htw : TagsWf tags) (body body' : Bytes) :
+    parseHeader flex (encodeHeader h (flex h.key h.ver) tags ++ body)
+      = .ok (h, (encodeHeader h (flex h.key h.ver) tags ++ body).drop (encodeHeader h (flex h.key h.ver) tags).length) ∧
+    (parseHeader flex (encodeHeader h (flex h.key h.ver) tags ++ body)).bind (fun r => .ok r.1)
+      = (parseHeader flex (encodeHeader h (flex h.key h.ver) tags ++ body')).bind (fun r => .ok r.1) := by
+  rw [parseHeader_encode_tags flex h hw tags htw body, parseHeader_encode_tags flex h hw tags htw body']
+  simp [GoResult.bind]
+
+/-- (3d) `binary.Uvarint ∘ binary.PutUvarint` = identity on uint64, consuming exactly the encoding (any bytes may follow). -/
+theorem uvarint_roundtrip (v : Nat) (hv : v < 2 ^ 64) (rest : Bytes) :
+    goUvarint (putUvarint v ++ rest) = (v, ((putUvarint v).length : Int)) ∧ 0 < (putUvarint v).length := by
+  have h := uvarintAux_put 9 v 0 0 0 rest rfl hv
+  refine ⟨?_, putUvarintAux_length_pos 9 v⟩
+  unfold goUvarint putUvarint
+  rw [h]; simp
+
+/-- (3e) `SkipTaggedFields` on a reader standing at the start of a well-formed section (anything before, anything after)
+succeeds and advances by exactly the length of the section. -/
+theorem skipTagged_exact (pre rest : Bytes) (tags : List (Nat × Bytes)) (htw : TagsWf tags) :
+    skipTagged { buf := pre ++ (encodeTags tags ++ rest), pos := pre.length }
+      = .ok { buf := pre ++ (encodeTags tags ++ rest), pos := (pre.length : Int) + (encodeTags tags).length } :=
+  skipTagged_at _ pre rest tags htw rfl rfl
+
+/-- (3f) Whatever the bytes: when `SkipTaggedFields` succeeds the reader is still inside its buffer and has not moved
+backwards (a lying size cannot move the position past the end or before the start). -/
+theorem skipTagged_within_buffer (buf : Bytes) (pos : Nat) (h : pos ≤ buf.length) (r' : Reader)
+    (hs : skipTagged { buf := buf, pos := pos } = .ok r') :
+    r'.buf = buf ∧ (pos : Int) ≤ r'.pos ∧ r'.pos ≤ buf.length := by
+  obtain ⟨hb, hi, hp⟩ := (skipTagged_safe { buf := buf, pos := pos } ⟨by simp, by simp; omega⟩).2 r' hs
+  have h2 := hi.2
+  rw [hb] at h2
+  exact ⟨hb, hp, h2⟩
 
 /-- (4a) `ReadFrame` never panics (allocation size is not modelled: lengths ≤ 2^31-1 are accepted). -/
 theorem readFrame_total (s : Bytes) : readFrame s ≠ .panic := (readFrame_shape s).1
@@ -506,6 +698,13 @@ example : parseHeader (fun _ _ => false) [0, 18, 0, 0, 0, 0, 0, 5, 0xff, 0xff, 9
     = .ok ({ key := 18, ver := 0, corr := 5, clientId := none }, [9]) := by decide
 example : readFrame [0, 0, 0, 2, 7, 8, 9] = .ok ([7, 8], [9]) := by decide
 example : readFrame [0, 0, 0, 1, 5] = .ok ([5], []) := by decide
+example : TagsWf [(0, [1, 2]), (300, []), (5, [9])] := ⟨by decide, by decide⟩
+example : encodeTags [(0, [1, 2]), (300, []), (5, [9])] = [3, 0, 2, 1, 2, 0xac, 2, 0, 5, 1, 9] := by decide
+example : putUvarint (2 ^ 64 - 1) = [0xff, 0xff, 0xff, 0xff, 0xff, 0xff, 0xff, 0xff, 0xff, 1] := by decide
+set_option maxRecDepth 8000 in
+example : parseHeader (fun k v => k == 3 && decide (9 ≤ v))
+    (encodeHeader { key := 3, ver := 9, corr := -7, clientId := some [0x61] } true [(0, [1, 2]), (300, []), (5, [9])] ++ [7, 7])
+    = .ok ({ key := 3, ver := 9, corr := -7, clientId := some [0x61] }, [7, 7]) := by decide
 example : skipTagged { buf := [2, 0, 1, 0xaa, 1, 0, 9], pos := 0 } = .ok { buf := [2, 0, 1, 0xaa, 1, 0, 9], pos := 6 } := by decide
 
 end KafVerif.C10
